@@ -6,7 +6,8 @@ import MaddyVerif.Expect.Dane
 
 Quantifier: every list of TLSA records (any length, any field values), every certificate chain
 (any length), every behaviour of the library primitives `E : Env` (record/certificate matching,
-`IsCA`, X.509 path validation) and every outcome of the DNS lookups `D : Dns`.
+`IsCA`, X.509 path validation) and every outcome of the DNS lookups `D : Dns`; for the resolver
+part every list of configured servers, every answer over either transport, every `Transport`.
 The property's stated space (≤ 4 records × 5 chains × handshake yes/no) is a finite subset.
 -/
 namespace MaddyVerif.C13
@@ -843,6 +844,380 @@ theorem C13_no_resolver_is_neutral (E : Env) (fut : Except DiscErr (List Rec)) (
     (chain : List Cert) : checkConn E false fut hs chain = .ret .none none := by
   simp [checkConn]
 
+/-! ## The owner name of a record is not an input of the decision -/
+
+/-- the records differ at most in their owner name -/
+def SameRData (r r' : Rec) : Prop :=
+  r.usage = r'.usage ∧ r.selector = r'.selector ∧ r.mtype = r'.mtype ∧ r.tag = r'.tag
+
+/-- law of the matching primitive: miekg's `TLSA.Verify` reads `Usage`/`Selector`/`MatchingType`/
+`Certificate` of the record, not its header -/
+def OwnerBlind (E : Env) : Prop :=
+  ∀ r r' c, SameRData r r' → E.recMatches r c = E.recMatches r' c
+
+/-- re-own every record: `f r` is the new owner name of `r` -/
+def reown (f : Rec → Nat) (r : Rec) : Rec := { r with owner := f r }
+
+theorem isEE_reown (f : Rec → Nat) (r : Rec) : isEE (reown f r) = isEE r := by
+  simp [isEE, mtypeOk, selectorOk, reown]
+
+theorem isTA_reown (f : Rec → Nat) (r : Rec) : isTA (reown f r) = isTA r := by
+  simp [isTA, mtypeOk, selectorOk, reown]
+
+theorem recMatches_reown (E : Env) (h : OwnerBlind E) (f : Rec → Nat) (r : Rec) (c : Cert) :
+    E.recMatches (reown f r) c = E.recMatches r c :=
+  h _ _ c ⟨rfl, rfl, rfl, rfl⟩
+
+theorem eeRecs_reown (f : Rec → Nat) (recs : List Rec) :
+    eeRecs (recs.map (reown f)) = (eeRecs recs).map (reown f) := by
+  unfold eeRecs
+  rw [List.filter_map]
+  congr 1
+
+theorem taRecs_reown (f : Rec → Nat) (recs : List Rec) :
+    taRecs (recs.map (reown f)) = (taRecs recs).map (reown f) := by
+  unfold taRecs
+  rw [List.filter_map]
+  congr 1
+
+theorem rootAddsOf_reown (E : Env) (h : OwnerBlind E) (f : Rec → Nat) (ta : List Rec) (c : Cert) :
+    rootAddsOf E (ta.map (reown f)) c = rootAddsOf E ta c := by
+  unfold rootAddsOf
+  rw [List.filter_map, List.map_map]
+  have : (ta.filter ((fun r => E.isCA c && E.recMatches r c) ∘ reown f)) =
+      ta.filter (fun r => E.isCA c && E.recMatches r c) := by
+    apply List.filter_congr
+    intro r _
+    simp [recMatches_reown E h]
+  rw [this]
+  rfl
+
+theorem isRoot_reown (E : Env) (h : OwnerBlind E) (f : Rec → Nat) (ta : List Rec) (c : Cert) :
+    isRoot E (ta.map (reown f)) c = isRoot E ta c := by
+  unfold isRoot
+  rw [List.any_map]
+  congr 1
+  funext r
+  simp [recMatches_reown E h]
+
+/-- **C13 (owner names are inert).** Whatever owner names the records of the RRset carry —
+`_25._tcp.<mx>`, the name a CNAME'd TLSA RRset lives under, anything else — `verifyDANE` decides the
+same: in particular no record can widen the set of names the certificate is verified for (the X.509
+query `chainVerify` is the one for the MX host name, for every RRset). -/
+theorem C13_owner_relabel_invariant (E : Env) (h : OwnerBlind E) (f : Rec → Nat) (recs : List Rec)
+    (hs : Bool) (chain : List Cert) :
+    verifyDANE E (recs.map (reown f)) hs chain = verifyDANE E recs hs chain := by
+  have hroots : rootAdds E ((taRecs recs).map (reown f)) chain = rootAdds E (taRecs recs) chain := by
+    unfold rootAdds
+    congr 1
+    funext c
+    exact rootAddsOf_reown E h f _ c
+  have hinters : interAdds E ((taRecs recs).map (reown f)) chain = interAdds E (taRecs recs) chain := by
+    unfold interAdds
+    apply List.filter_congr
+    intro c _
+    rw [isRoot_reown E h]
+  have hany : ∀ leaf, ((eeRecs recs).map (reown f)).any (fun r => E.recMatches r leaf) =
+      (eeRecs recs).any (fun r => E.recMatches r leaf) := by
+    intro leaf
+    rw [List.any_map]
+    congr 1
+    funext r
+    simp [recMatches_reown E h]
+  unfold verifyDANE
+  simp only [eeRecs_reown, taRecs_reown, List.isEmpty_map, hroots, hinters, hany]
+
+/-- the same, for two RRsets that are equal once the owner names are erased -/
+theorem C13_owner_irrelevant (E : Env) (h : OwnerBlind E) (recs recs' : List Rec)
+    (hsame : recs.map (reown (fun _ => 0)) = recs'.map (reown (fun _ => 0)))
+    (hs : Bool) (chain : List Cert) :
+    verifyDANE E recs hs chain = verifyDANE E recs' hs chain := by
+  rw [← C13_owner_relabel_invariant E h (fun _ => 0) recs, hsame,
+    C13_owner_relabel_invariant E h (fun _ => 0) recs']
+
+/-! ## The resolver: an AD flag counts only when it comes from a loopback server -/
+
+theorem exchangeLoop_spec (T : Transport) (servers : List (Bool × SrvAns)) (acc : XRes) (m : Msg)
+    (h : exchangeLoop T servers acc = .ok m) :
+    acc = .ok m ∨ ∃ s ∈ servers, ∃ m0, T s.2 = some m0 ∧ m0.rcode = 0 ∧
+      m = { m0 with ad := m0.ad && s.1 } := by
+  induction servers generalizing acc with
+  | nil => exact Or.inl (by simpa [exchangeLoop] using h)
+  | cons s rest ih =>
+    obtain ⟨lb, a⟩ := s
+    unfold exchangeLoop at h
+    split at h
+    · rcases ih _ h with hacc | ⟨s, hs, m0, h1, h2, h3⟩
+      · cases hacc
+      · exact Or.inr ⟨s, List.mem_cons_of_mem _ hs, m0, h1, h2, h3⟩
+    · rename_i m0 hT
+      split at h
+      · rcases ih _ h with hacc | ⟨s, hs, m1, h1, h2, h3⟩
+        · cases hacc
+        · exact Or.inr ⟨s, List.mem_cons_of_mem _ hs, m1, h1, h2, h3⟩
+      · rename_i hrc
+        cases h
+        exact Or.inr ⟨(lb, a), List.mem_cons_self, m0, hT, by simpa using hrc, rfl⟩
+
+/-- **C13 (`exchange`, whatever the transport).** A successful `exchange` returns the message one of
+the configured servers delivered with RCODE 0, its AD flag replaced by `ad ∧ isLoopback(server)`. -/
+theorem C13_exchange_spec (T : Transport) (servers : List (Bool × SrvAns)) (m : Msg)
+    (h : exchange T servers = .ok m) :
+    ∃ s ∈ servers, ∃ m0, T s.2 = some m0 ∧ m0.rcode = 0 ∧ m = { m0 with ad := m0.ad && s.1 } := by
+  rcases exchangeLoop_spec T servers .nilResp m h with hacc | h
+  · cases hacc
+  · exact h
+
+/-- an AD flag that survives `exchange` was set by a loopback server -/
+theorem C13_exchange_ad_only_from_loopback (T : Transport) (servers : List (Bool × SrvAns)) (m : Msg)
+    (h : exchange T servers = .ok m) (had : m.ad = true) :
+    ∃ s ∈ servers, s.1 = true ∧ ∃ m0, T s.2 = some m0 ∧ m0.rcode = 0 ∧ m0.ad = true ∧
+      m0.recs = m.recs ∧ m0.rname = m.rname := by
+  obtain ⟨s, hs, m0, h1, h2, rfl⟩ := C13_exchange_spec T servers m h
+  simp at had
+  exact ⟨s, hs, had.2, m0, h1, h2, had.1, rfl, rfl⟩
+
+/-- **C13 (non-loopback resolvers authenticate nothing).** If no configured server is a loopback
+address, no answer keeps its AD flag — over any transport, truncated or not. -/
+theorem C13_exchange_nonloopback_ad_false (T : Transport) (servers : List (Bool × SrvAns)) (m : Msg)
+    (hnl : ∀ s ∈ servers, s.1 = false) (h : exchange T servers = .ok m) : m.ad = false := by
+  obtain ⟨s, hs, m0, _, _, rfl⟩ := C13_exchange_spec T servers m h
+  simp [hnl s hs]
+
+/-- no answer of the four lookups is DNSSEC-authenticated -/
+def Unauthenticated (D : Dns) : Prop :=
+  D.tlsaRname.ad = false ∧ D.tlsaMX.ad = false ∧
+    (∀ ad rn, D.checkCNAMEAD = .ok (ad, rn) → ad = false) ∧ (∀ ad, D.lookupCNAME = .ok ad → ad = false)
+
+theorem ask_nonloopback (T : Transport) (W : List Srv) (q : Srv → SrvAns)
+    (hnl : ∀ s ∈ W, s.loopback = false) (m : Msg) (h : ask T W q = .ok m) : m.ad = false := by
+  apply C13_exchange_nonloopback_ad_false T _ m _ h
+  intro s hs
+  obtain ⟨s0, hs0, rfl⟩ := List.mem_map.mp hs
+  exact hnl s0 hs0
+
+theorem authLookupTLSA_ad (x : XRes) (a : TLSAAns) (h : authLookupTLSA x = some a)
+    (hx : ∀ m, x = .ok m → m.ad = false) : a.ad = false := by
+  cases x with
+  | nilResp => cases h
+  | err e => cases h; rfl
+  | ok m => cases h; exact hx m rfl
+
+/-- **C13 (an RRset from a non-loopback resolver never counts as authenticated).** -/
+theorem C13_nonloopback_rrset_never_authenticated (T : Transport) (W : List Srv)
+    (hnl : ∀ s ∈ W, s.loopback = false) (D : Dns) (h : resolverDns T W = some D) :
+    Unauthenticated D := by
+  unfold resolverDns at h
+  split at h
+  · rename_i ck cn tr tm hck hcn htr htm
+    cases h
+    refine ⟨authLookupTLSA_ad _ _ htr (ask_nonloopback T W _ hnl),
+      authLookupTLSA_ad _ _ htm (ask_nonloopback T W _ hnl), ?_, ?_⟩
+    · intro ad rn hok
+      simp only at hok
+      subst hok
+      unfold checkCNAMEAD at hck
+      split at hck
+      · cases hck
+      · cases hck
+      · rename_i m hm
+        split at hck
+        · cases hck
+          exact ask_nonloopback T W _ hnl m hm
+        · split at hck
+          · cases hck
+          · cases hck; rfl
+          · rename_i m6 hm6
+            split at hck
+            · cases hck
+              exact ask_nonloopback T W _ hnl m6 hm6
+            · cases hck; rfl
+    · intro ad hok
+      simp only at hok
+      subst hok
+      unfold authLookupCNAME at hcn
+      split at hcn
+      · cases hcn
+      · cases hcn
+      · rename_i m hm
+        cases hcn
+        exact ask_nonloopback T W _ hnl m hm
+  · cases h
+
+/-- without an authenticated answer discovery yields no record -/
+theorem discover_unauthenticated (D : Dns) (h : Unauthenticated D) :
+    discoverTLSA D = .ok [] ∨ ∃ e, discoverTLSA D = .error e := by
+  obtain ⟨hr, hm, hck, hcn⟩ := h
+  have atMX : discoverAtMX D = .ok [] ∨ ∃ e, discoverAtMX D = .error e := by
+    unfold discoverAtMX
+    split
+    · exact Or.inr ⟨_, rfl⟩
+    · simp [hm]
+  have secure : ∀ rn, discoverSecure D rn = .ok [] ∨ ∃ e, discoverSecure D rn = .error e := by
+    intro rn
+    unfold discoverSecure
+    split
+    · split
+      · exact Or.inr ⟨_, rfl⟩
+      · simpa [hr] using atMX
+    · exact atMX
+  unfold discoverTLSA
+  split
+  · exact Or.inr ⟨_, rfl⟩
+  · rename_i adA rn hok
+    have : adA = false := hck adA rn hok
+    subst this
+    split
+    · exact Or.inr ⟨_, rfl⟩
+    · simp only [Bool.not_false, ↓reduceIte]
+      split
+      · exact Or.inl rfl
+      · split
+        · exact Or.inr ⟨_, rfl⟩
+        · rename_i cnameAD hcnok
+          have : cnameAD = false := hcn cnameAD hcnok
+          subst this
+          exact Or.inl rfl
+
+/-- **C13 (no DANE decision on unauthenticated DNS).** With only non-loopback servers configured the
+DANE policy neither authenticates nor refuses on TLSA grounds: the outcome is neutral, or the
+temporary refusal of a failed lookup — for every transport, every answer, every TLS state. -/
+theorem C13_nonloopback_resolver_never_dane (E : Env) (T : Transport) (W : List Srv)
+    (hnl : ∀ s ∈ W, s.loopback = false) (hs : Bool) (chain : List Cert) (r : CRes)
+    (h : resolverConn E T W hs chain = some r) :
+    r = .ret .none none ∨ r = .ret .none (some .tempLookup) := by
+  unfold resolverConn at h
+  cases hD : resolverDns T W with
+  | none => rw [hD] at h; cases h
+  | some D =>
+    rw [hD] at h
+    cases h
+    have hu := C13_nonloopback_rrset_never_authenticated T W hnl D hD
+    show connDecision E true D hs chain = _ ∨ connDecision E true D hs chain = _
+    unfold connDecision
+    rcases discover_unauthenticated D hu with h0 | ⟨e, he⟩
+    · rw [h0]
+      simp [checkConn, verifyDANE]
+    · rw [he]
+      cases hnf : e.isNotFound with
+      | true => simp [checkConn, hnf]
+      | false => exact Or.inr (C13_lookup_error_fails_closed E e hnf hs chain)
+
+/-- the resolver never dereferences a nil response when at least one server is configured -/
+theorem exchangeLoop_ne_nil (T : Transport) (servers : List (Bool × SrvAns)) (acc : XRes)
+    (h : servers ≠ [] ∨ acc ≠ .nilResp) : exchangeLoop T servers acc ≠ .nilResp := by
+  induction servers generalizing acc with
+  | nil =>
+    rcases h with h | h
+    · exact absurd rfl h
+    · simpa [exchangeLoop] using h
+  | cons s rest ih =>
+    obtain ⟨lb, a⟩ := s
+    unfold exchangeLoop
+    split
+    · exact ih _ (Or.inr (by simp))
+    · split
+      · exact ih _ (Or.inr (by simp))
+      · simp
+
+theorem C13_resolver_no_panic (T : Transport) (W : List Srv) (h : W ≠ []) :
+    ∃ D, resolverDns T W = some D := by
+  have hne : ∀ q, ask T W q ≠ .nilResp := by
+    intro q
+    apply exchangeLoop_ne_nil
+    left
+    simpa using h
+  unfold resolverDns
+  have h1 : ∃ ck, checkCNAMEAD (ask T W (·.a)) (ask T W (·.aaaa)) = some ck := by
+    unfold checkCNAMEAD
+    have ha := hne (·.a)
+    have h6 := hne (·.aaaa)
+    split
+    · rename_i hx; exact absurd hx ha
+    · exact ⟨_, rfl⟩
+    · split
+      · exact ⟨_, rfl⟩
+      · split
+        · rename_i hx; exact absurd hx h6
+        · exact ⟨_, rfl⟩
+        · split <;> exact ⟨_, rfl⟩
+  have h2 : ∃ cn, authLookupCNAME (ask T W (·.cname)) = some cn := by
+    have hc := hne (·.cname)
+    unfold authLookupCNAME
+    split
+    · rename_i hx; exact absurd hx hc
+    · exact ⟨_, rfl⟩
+    · exact ⟨_, rfl⟩
+  have h3 : ∀ q, ∃ a, authLookupTLSA (ask T W q) = some a := by
+    intro q
+    have hc := hne q
+    unfold authLookupTLSA
+    split
+    · rename_i hx; exact absurd hx hc
+    · exact ⟨_, rfl⟩
+    · exact ⟨_, rfl⟩
+  obtain ⟨ck, hck⟩ := h1
+  obtain ⟨cn, hcn⟩ := h2
+  obtain ⟨tr, htr⟩ := h3 (·.tlsaR)
+  obtain ⟨tm, htm⟩ := h3 (·.tlsaM)
+  rw [hck, hcn, htr, htm]
+  exact ⟨_, rfl⟩
+
+theorem authLookupTLSA_ok (x : XRes) (a : TLSAAns) (h : authLookupTLSA x = some a)
+    (had : a.ad = true) : ∃ m, x = .ok m ∧ m.ad = true ∧ m.recs = a.recs := by
+  cases x with
+  | nilResp => cases h
+  | err e => cases h; cases had
+  | ok m => cases h; exact ⟨m, rfl, had, rfl⟩
+
+theorem ask_ad_source (T : Transport) (W : List Srv) (q : Srv → SrvAns) (m : Msg)
+    (h : ask T W q = .ok m) (had : m.ad = true) :
+    ∃ s ∈ W, s.loopback = true ∧ ∃ m0, T (q s) = some m0 ∧ m0.rcode = 0 ∧ m0.ad = true ∧
+      m0.recs = m.recs := by
+  obtain ⟨s, hs, hlb, m0, h1, h2, h3, h4, _⟩ := C13_exchange_ad_only_from_loopback T _ m h had
+  obtain ⟨s0, hs0, rfl⟩ := List.mem_map.mp hs
+  exact ⟨s0, hs0, hlb, m0, h1, h2, h3, h4⟩
+
+/-- **C13 (end to end through the resolver, soundness).** If the policy raises the TLS level to
+"authenticated", then some LOOPBACK server delivered — RCODE 0, AD set — a TLSA answer (under the
+canonical or under the MX name) with whose records `verifyDANE` authenticates this connection. For
+every transport: nothing a non-loopback server says, over UDP or TCP, can be that answer. -/
+theorem C13_resolver_authenticated_sound (E : Env) (T : Transport) (W : List Srv) (hs : Bool)
+    (chain : List Cert) (err : Option CErr)
+    (h : resolverConn E T W hs chain = some (.ret .authenticated err)) :
+    ∃ s ∈ W, s.loopback = true ∧ ∃ m0, (T s.tlsaR = some m0 ∨ T s.tlsaM = some m0) ∧
+      m0.rcode = 0 ∧ m0.ad = true ∧ Authenticated (verifyDANE E m0.recs hs chain) := by
+  unfold resolverConn at h
+  cases hD : resolverDns T W with
+  | none => rw [hD] at h; cases h
+  | some D =>
+    rw [hD] at h
+    have h' : connDecision E true D hs chain = .ret .authenticated err := by
+      simpa using h
+    unfold connDecision at h'
+    obtain ⟨_, _, recs, hd, hv⟩ := (C13_checkConn_authenticated_iff E true _ hs chain err).mp h'
+    have hne : recs ≠ [] := by
+      rintro rfl
+      unfold Authenticated at hv
+      rw [C13_absent_is_neutral] at hv; cases hv
+    obtain ⟨rn, _, hsrc⟩ := C13_discover_only_authenticated D recs hd hne
+    unfold resolverDns at hD
+    split at hD
+    · rename_i ck cn tr tm hck hcn htr htm
+      cases hD
+      rcases hsrc with ⟨_, hu, hrec⟩ | ⟨_, _, had, hrec⟩
+      · obtain ⟨m, hm, hmad, hmrecs⟩ := authLookupTLSA_ok _ _ htr hu.2.1
+        obtain ⟨s, hsW, hlb, m0, h1, h2, h3, h4⟩ := ask_ad_source T W _ m hm hmad
+        refine ⟨s, hsW, hlb, m0, Or.inl h1, h2, h3, ?_⟩
+        simp only at hrec
+        rw [h4, hmrecs, ← hrec]; exact hv
+      · obtain ⟨m, hm, hmad, hmrecs⟩ := authLookupTLSA_ok _ _ htm had
+        obtain ⟨s, hsW, hlb, m0, h1, h2, h3, h4⟩ := ask_ad_source T W _ m hm hmad
+        refine ⟨s, hsW, hlb, m0, Or.inr h1, h2, h3, ?_⟩
+        simp only at hrec
+        rw [h4, hmrecs, ← hrec]; exact hv
+    · cases hD
+
 /-! ## T1: facts regenerated from the current `dane.go` / `security.go` -/
 
 section T1
@@ -977,34 +1352,34 @@ example : PathEndsAtOneRoot exEnv := by
   · exact ⟨2, h2, by simp [exEnv, hl, h1]⟩
 
 -- DANE-EE 3 1 1 matching the leaf authenticates
-example : verifyDANE exEnv [⟨3, 1, 1, 0⟩] true [0, 1, 2] = .ret true none := by decide
+example : verifyDANE exEnv [⟨3, 1, 1, 0, 0⟩] true [0, 1, 2] = .ret true none := by decide
 -- DANE-TA 2 0 1 matching the root, chain leaf+intermediate+root: authenticates
-example : verifyDANE exEnv [⟨2, 0, 1, 2⟩] true [0, 1, 2] = .ret true none := by decide
+example : verifyDANE exEnv [⟨2, 0, 1, 2, 0⟩] true [0, 1, 2] = .ret true none := by decide
 -- the same record, root not presented: refused
-example : verifyDANE exEnv [⟨2, 0, 1, 2⟩] true [0, 1] = .ret false (some .noMatch) := by decide
+example : verifyDANE exEnv [⟨2, 0, 1, 2, 0⟩] true [0, 1] = .ret false (some .noMatch) := by decide
 -- DANE-TA matching the (non-CA) leaf: refused
-example : verifyDANE exEnv [⟨2, 0, 1, 0⟩] true [0, 1, 2] = .ret false (some .noMatch) := by decide
+example : verifyDANE exEnv [⟨2, 0, 1, 0, 0⟩] true [0, 1, 2] = .ret false (some .noMatch) := by decide
 -- an unusable record (matching type 3) next to a mismatching usable one: refused; alone: neutral
-example : verifyDANE exEnv [⟨3, 1, 3, 0⟩, ⟨3, 1, 1, 7⟩] true [0, 1, 2] = .ret false (some .noMatch) := by decide
-example : verifyDANE exEnv [⟨3, 1, 3, 0⟩] true [0, 1, 2] = .ret false none := by decide
-example : verifyDANE exEnv [⟨3, 1, 3, 0⟩] false [] = .ret false (some .tlsRequired) := by decide
+example : verifyDANE exEnv [⟨3, 1, 3, 0, 0⟩, ⟨3, 1, 1, 7, 0⟩] true [0, 1, 2] = .ret false (some .noMatch) := by decide
+example : verifyDANE exEnv [⟨3, 1, 3, 0, 0⟩] true [0, 1, 2] = .ret false none := by decide
+example : verifyDANE exEnv [⟨3, 1, 3, 0, 0⟩] false [] = .ret false (some .tlsRequired) := by decide
 -- the panic outcome exists (handshake "complete", no certificate)
-example : verifyDANE exEnv [⟨3, 1, 1, 0⟩] true [] = .panic := by decide
+example : verifyDANE exEnv [⟨3, 1, 1, 0, 0⟩] true [] = .panic := by decide
 -- hypotheses of C13_unusable_only_is_neutral / C13_no_tls_refused are satisfiable
-example : ∀ r ∈ [(⟨0, 0, 1, 0⟩ : Rec), ⟨3, 2, 1, 0⟩, ⟨3, 1, 3, 0⟩, ⟨4, 1, 1, 0⟩], ¬ Usable r := by decide
-example : Usable ⟨2, 1, 2, 5⟩ ∧ Usable ⟨3, 0, 0, 5⟩ := by decide
+example : ∀ r ∈ [(⟨0, 0, 1, 0, 0⟩ : Rec), ⟨3, 2, 1, 0, 0⟩, ⟨3, 1, 3, 0, 0⟩, ⟨4, 1, 1, 0, 0⟩], ¬ Usable r := by decide
+example : Usable ⟨2, 1, 2, 5, 0⟩ ∧ Usable ⟨3, 0, 0, 5, 0⟩ := by decide
 -- TAMatch / Anchor are inhabited
-example : Anchor exEnv [⟨2, 0, 1, 2⟩] [0, 1, 2] 2 := by
-  refine ⟨by simp, by decide, ⟨2, 0, 1, 2⟩, by simp, by decide, rfl, by decide⟩
+example : Anchor exEnv [⟨2, 0, 1, 2, 0⟩] [0, 1, 2] 2 := by
+  refine ⟨by simp, by decide, ⟨2, 0, 1, 2, 0⟩, by simp, by decide, rfl, by decide⟩
 
 /-- secure host, CNAME'd, TLSA under the canonical name is insecure, falls back to the MX name -/
 def exDns : Dns where
   checkCNAMEAD := .ok (false, .other)
   lookupCNAME := .ok true
-  tlsaRname := ⟨none, false, [⟨3, 1, 1, 9⟩]⟩
-  tlsaMX := ⟨none, true, [⟨3, 1, 1, 0⟩]⟩
+  tlsaRname := ⟨none, false, [⟨3, 1, 1, 9, 0⟩]⟩
+  tlsaMX := ⟨none, true, [⟨3, 1, 1, 0, 0⟩]⟩
 
-example : discoverTLSA exDns = .ok [⟨3, 1, 1, 0⟩] := by rfl
+example : discoverTLSA exDns = .ok [⟨3, 1, 1, 0, 0⟩] := by rfl
 example : connDecision exEnv true exDns true [0, 1, 2] = .ret .authenticated none := by decide
 example : connDecision exEnv true exDns false [] = .ret .none (some (.dane .tlsRequired)) := by decide
 -- SERVFAIL on the TLSA lookup of a secure host: temporary refusal
@@ -1018,6 +1393,58 @@ example (a b : Rec) : [a, b].Perm [b, a] := List.Perm.swap b a []
 -- an error hypothesis of C13_lookup_error_fails_closed is satisfiable, and NXDOMAIN is not one
 example : (DiscErr.lookup .other).isNotFound = false ∧ DiscErr.noAddress.isNotFound = false ∧
     (DiscErr.lookup .notFound).isNotFound = true := by decide
+
+/-! ### owner names, resolver -/
+
+example : OwnerBlind exEnv := by
+  rintro r r' c ⟨_, _, _, h⟩
+  simp [exEnv, h]
+
+/-- a DANE-TA record for the root, under the usual owner name (0) and under the name of a CNAME'd
+RRset (7): the same verdict, also for a leaf the X.509 primitive rejects -/
+example : verifyDANE exEnv [⟨2, 0, 1, 2, 7⟩] true [0, 1, 2] = verifyDANE exEnv [⟨2, 0, 1, 2, 0⟩] true [0, 1, 2] := by
+  decide
+
+/-- an honest validating resolver: signed A record, signed TLSA RRset under the MX name -/
+def exSrv (loopback : Bool) : Srv where
+  loopback := loopback
+  a := ⟨some ⟨0, true, false, .same, []⟩, none⟩
+  aaaa := ⟨some ⟨0, true, false, .empty, []⟩, none⟩
+  cname := ⟨some ⟨0, true, false, .empty, []⟩, none⟩
+  tlsaR := ⟨some ⟨3, false, false, .empty, []⟩, none⟩
+  tlsaM := ⟨some ⟨0, true, false, .empty, [⟨3, 1, 1, 0, 0⟩]⟩, none⟩
+
+example : resolverConn exEnv udpOnly [exSrv true] true [0, 1, 2] = some (.ret .authenticated none) := by
+  decide
+/-- the same answers from a resolver that is not on loopback: nothing is authenticated -/
+example : resolverConn exEnv udpOnly [exSrv false] true [0, 1, 2] = some (.ret .none none) := by decide
+/-- a failing non-loopback server first, the loopback one second: its AD flags count -/
+example : resolverConn exEnv udpOnly
+    [{ exSrv false with a := ⟨some ⟨2, true, false, .same, []⟩, none⟩,
+                        tlsaM := ⟨some ⟨2, true, false, .empty, []⟩, none⟩,
+                        tlsaR := ⟨some ⟨2, true, false, .empty, []⟩, none⟩ }, exSrv true]
+    true [0, 1, 2] = some (.ret .authenticated none) := by decide
+/-- truncated UDP answers with the complete, AD-flagged answers over TCP, and a transport that falls
+back to TCP: still nothing from a non-loopback server is authenticated (instance of
+`C13_nonloopback_resolver_never_dane` with a transport other than the tree's) -/
+def tcpFallback : Transport := fun a =>
+  match a.udp with
+  | some m => if m.tc then a.tcp else some m
+  | none => none
+
+def exSrvTC (loopback : Bool) : Srv where
+  loopback := loopback
+  a := ⟨some ⟨0, false, true, .empty, []⟩, some ⟨0, true, false, .same, []⟩⟩
+  aaaa := ⟨some ⟨0, false, true, .empty, []⟩, some ⟨0, true, false, .empty, []⟩⟩
+  cname := ⟨some ⟨0, false, true, .empty, []⟩, some ⟨0, true, false, .empty, []⟩⟩
+  tlsaR := ⟨some ⟨3, false, false, .empty, []⟩, some ⟨3, false, false, .empty, []⟩⟩
+  tlsaM := ⟨some ⟨0, false, true, .empty, []⟩, some ⟨0, true, false, .empty, [⟨3, 1, 1, 0, 0⟩]⟩⟩
+
+example : resolverConn exEnv tcpFallback [exSrvTC false] true [0, 1, 2] = some (.ret .none none) := by decide
+example : resolverConn exEnv tcpFallback [exSrvTC true] true [0, 1, 2] = some (.ret .authenticated none) := by decide
+/-- the tree's transport reads the truncated (empty) A answer: no address, temporary refusal -/
+example : resolverConn exEnv udpOnly [exSrvTC true] true [0, 1, 2] = some (.ret .none (some .tempLookup)) := by decide
+example : resolverDns udpOnly [] = none := by decide
 
 end Examples
 
